@@ -161,3 +161,83 @@ for key in ["clematis/engine/stages/t1.py:t1_propagate", "clematis/engine/stages
             "clematis/engine/scheduler.py:next_turn", "clematis/engine/orchestrator/reflection.py:_episode_id",
             "clematis/engine/stages/t3/policy.py:deliberate"]:
     R.fclause("C01", "no-rng/" + key.split(":")[1], "custom", key, fn=no_rng_or_id)
+
+
+# ---------------------------------------------------------------- module-wide: no salted hash / RNG / object identity
+# "The outcome does not depend on the process, the string-hash seed ...": builtin hash() of str/bytes is salted per
+# process (PYTHONHASHSEED), id() is an address, random/uuid/secrets/os.urandom are RNGs.  Clause per module on the turn
+# path: no function of the module *uses the value* of such a call (a bare `hash(x)` statement is a hashability probe).
+# Existing sites are whitelisted one by one with the reason; any other site -- e.g. an md5-based stable id replaced by
+# hash() -- fails the clause of its module.
+import glob as _glob
+import os as _os
+from pyvc import frontend as _fe
+
+_RNG_WHITELIST = {
+    ("clematis/io/atomic.py", "atomic_replace", "random.uniform"):
+        "retry back-off jitter: only the sleep time between os.replace attempts depends on it",
+    ("clematis/memory/lance_index.py", "add", "uuid.uuid4"):
+        "optional LanceDB backend (not the default index): id for an episode that comes without one -- NOT decided here",
+}
+_TURN_PATH_MODULES = ["clematis/engine/stages/*.py", "clematis/engine/stages/t2/*.py", "clematis/engine/stages/t3/*.py",
+                      "clematis/engine/orchestrator/*.py", "clematis/engine/*.py", "clematis/engine/util/*.py",
+                      "clematis/engine/policy/*.py", "clematis/memory/*.py", "clematis/graph/*.py", "clematis/io/*.py",
+                      "clematis/adapters/*.py"]
+
+
+def _salted_sources(cl, mod, cls, func):
+    rel = cl["key"].split(":")[0]
+    out = []
+    parents = {}
+    for n in ast.walk(mod.tree):
+        for ch in ast.iter_child_nodes(n):
+            parents[id(ch)] = n
+    bad = []
+    nfun = 0
+    for fn in ast.walk(mod.tree):
+        if not isinstance(fn, (ast.FunctionDef, ast.AsyncFunctionDef)):
+            continue
+        nfun += 1
+        for n in ast.walk(fn):
+            if not isinstance(n, ast.Call):
+                continue
+            src = ast.unparse(n.func)
+            hit = src.split(".")[0] in ("random", "secrets", "uuid") or src in ("id", "hash", "os.urandom", "_os.urandom")
+            if not hit:
+                continue
+            if src in ("hash", "id") and isinstance(parents.get(id(n)), ast.Expr):
+                continue        # value discarded: hashability probe
+            if (rel, fn.name, src) in _RNG_WHITELIST:
+                continue
+            bad.append("%s line %d: %s(...)" % (fn.name, n.lineno, src))
+    nm = cl["name"]
+    if bad:
+        return [result(nm, "failed", "salted hash / RNG / object identity used on the turn path: " + "; ".join(sorted(set(bad))[:8]))]
+    return [result(nm, "proved", where="%d functions scanned" % nfun)]
+
+
+def _first_function_key(rel):
+    m = _fe.load_module(rel)
+    if m.functions:
+        return rel + ":" + sorted(m.functions)[0]
+    for cn in sorted(m.classes):
+        ci = m.classes[cn]
+        for st in ci.node.body:
+            if isinstance(st, ast.FunctionDef):
+                return rel + ":" + cn + "." + st.name
+    return None
+
+
+_seen_mods = set()
+for _pat in _TURN_PATH_MODULES:
+    for _p in sorted(_glob.glob(_os.path.join(_fe.REPO, _pat))):
+        _rel = _os.path.relpath(_p, _fe.REPO)
+        if _rel in _seen_mods or _rel.endswith("__init__.py"):
+            continue
+        _seen_mods.add(_rel)
+        try:
+            _k = _first_function_key(_rel)
+        except Exception:
+            _k = None
+        if _k:
+            R.fclause("C01", "no-salted-hash-or-rng/" + _rel, "custom", _k, fn=_salted_sources)
